@@ -267,6 +267,59 @@ def _ascii_range_guard(fn, defs, idom, src, blk):
             continue
         if cfg.dominates(idom, true_t, blk) and all(pp == nb for pp in fn.pred_map()[true_t]):
             return "(%d..%d).contains(&n) at line %s" % (lo, hi, t.get("line"))
+    return _compare_guard(fn, defs, idom, skey, blk)
+
+
+def _compare_guard(fn, defs, idom, skey, blk):
+    """Is `blk` dominated by a branch edge on which `src <= K` / `src < K` with K < 128 is known
+    (range patterns `32..=126 =>` and `if n < 127` lower to such compares; literal patterns to a switch on src)?"""
+    if skey is None:
+        return None
+    preds = fn.pred_map()
+    for bi, b in enumerate(fn.blocks):
+        t = b["term"]
+        if t["k"] != "switch" or b.get("cleanup"):
+            continue
+        op = t["op"]
+        if op.get("c") not in ("copy", "move"):
+            continue
+        # match on literal values of src itself
+        if _root_local(fn, defs, op) == skey and not op["pl"]["p"]:
+            by_t = {}
+            for v, tg in t["targets"]:
+                by_t.setdefault(tg, []).append(v)
+            for tg, vs in by_t.items():
+                if tg != t["otherwise"] and all(0 <= v < 128 for v in vs) and cfg.dominates(idom, tg, blk) \
+                        and all(pp == bi for pp in preds[tg]):
+                    return "match arm for the values %s at line %s" % (sorted(vs)[:4], t.get("line"))
+            continue
+        if op["pl"]["p"]:
+            continue
+        ds = [d for d in defs.get(op["pl"]["l"], []) if d[0] == bi and d[1] != "term"]
+        if len(ds) != 1 or ds[0][2]["k"] != "bin":
+            continue
+        rv = ds[0][2]
+        a, b2, o = rv["a"], rv["b"], rv["op"]
+        ka, kb = common.const_int(a), common.const_int(b2)
+        bound_true = bound_false = None      # exclusive upper bound of src known on the true / false edge
+        if kb is not None and _root_local(fn, defs, a) == skey:
+            bound_true = {"Le": kb + 1, "Lt": kb}.get(o)
+            bound_false = {"Gt": kb + 1, "Ge": kb}.get(o)
+        elif ka is not None and _root_local(fn, defs, b2) == skey:
+            bound_true = {"Ge": ka + 1, "Gt": ka}.get(o)
+            bound_false = {"Lt": ka + 1, "Le": ka}.get(o)
+        true_t = t["otherwise"]
+        false_t = t["otherwise"]
+        for v, tg in t["targets"]:
+            if v == 1:
+                true_t = tg
+            if v == 0:
+                false_t = tg
+        if true_t == false_t:
+            continue
+        for bound, edge in ((bound_true, true_t), (bound_false, false_t)):
+            if bound is not None and bound <= 128 and cfg.dominates(idom, edge, blk) and all(pp == bi for pp in preds[edge]):
+                return "`n < %d` known from the compare at line %s" % (bound, t.get("line"))
     return None
 
 
@@ -286,22 +339,26 @@ def _root_local(fn, defs, op):
 def print_utf8(ctx, lexpr):
     r = ctx.rule("R-PRINT-UTF8", "every byte source of the printer is ASCII or the bytes of a &str")
     n = 0
+    fwd = common.sink_forwarders(lexpr)
     for fn in lexpr.fns:
         if not common.in_file(fn, "lexpr/src/print.rs"):
             continue
         defs = None
         idom = None
+        if fn.path in fwd:
+            continue        # its single write_all is accounted for at each of its call sites
         for bi, t in fn.calls():
             c = t["callee"]
-            if c.get("trait") != "std::io::Write":
+            via = fwd.get(c.get("resolved") or c.get("path"))
+            if c.get("trait") != "std::io::Write" and via is None:
                 continue
-            m = c.get("method")
+            m = "write_all" if via is not None else c.get("method")
             if m == "write_all":
                 n += 1
                 if defs is None:
                     defs = common.defs_of(fn)
                     idom = cfg.dominators(fn)
-                okb, desc = _classify_bytes_source(fn, defs, idom, lexpr, t["args"][1], bi)
+                okb, desc = _classify_bytes_source(fn, defs, idom, lexpr, t["args"][via - 1 if via is not None else 1], bi)
                 if okb:
                     r.ok("%s: write_all(%s)" % (fn.path, desc), fn, t.get("line"))
                 else:
